@@ -309,9 +309,25 @@ impl Model for M {
 
     fn step(&self, s: &St, a: &Act, out: &mut Vec<Viol>) -> Option<St> {
         let mut state = self.build(s);
+        let applied = crate::core::guarded(|| self.apply(&mut state, a));
+        let Ok(msgs) = applied else {
+            out.push(("C09/panic/update".to_string(), format!("action={a:?}: the code under test panicked")));
+            return None;
+        };
+        self.judge(s, a, &state, msgs, out)
+    }
+
+    fn impl_hash(&self, s: &St) -> Option<u64> {
+        let v: Vec<_> = s.0.iter().map(|i| (i.held, i.cancelling)).collect();
+        Some(hash_of(&v))
+    }
+}
+
+impl M {
+    fn apply(&self, state: &mut EState, a: &Act) -> Vec<(usize, u8, u8)> {
         let msgs: Vec<(usize, u8, u8)> = match a {
             Act::Msg(i, t, v) => {
-                self.deliver(&mut state, *i, *t, *v);
+                self.deliver(state, *i, *t, *v);
                 vec![(*i, *t, *v)]
             }
             Act::Full(items) => {
@@ -340,12 +356,16 @@ impl Model for M {
                 vec![]
             }
         };
+        msgs
+    }
+
+    fn judge(&self, s: &St, a: &Act, state: &EState, msgs: Vec<(usize, u8, u8)>, out: &mut Vec<Viol>) -> Option<St> {
         let via = match a {
             Act::Msg(..) => "single",
             Act::Full(_) => "full-snapshot",
             Act::CancelSent(_) => "cancel-sent",
         };
-        let got = self.read(&state);
+        let got = self.read(state);
         let mut next = s.0.clone();
         for i in 0..N_ITEMS {
             let before = s.0[i];
@@ -414,11 +434,6 @@ impl Model for M {
             }
         }
         Some(St(next))
-    }
-
-    fn impl_hash(&self, s: &St) -> Option<u64> {
-        let v: Vec<_> = s.0.iter().map(|i| (i.held, i.cancelling)).collect();
-        Some(hash_of(&v))
     }
 }
 
